@@ -2,6 +2,7 @@ package main
 
 import (
 	"fmt"
+	"go/ast"
 	"go/token"
 	"go/types"
 	"sort"
@@ -21,6 +22,7 @@ type FuncResult struct {
 	Callees     []string      `json:"callee_contracts,omitempty"`
 	Trusted     []string      `json:"trusted_callees,omitempty"`
 	IsLemma     bool          `json:"is_lemma,omitempty"`
+	UsedLemmas  []string      `json:"applied_lemmas,omitempty"`
 }
 
 func (e *Engine) newFnCtx(fn *ssa.Function, name string, con *Contract) *FnCtx {
@@ -28,6 +30,15 @@ func (e *Engine) newFnCtx(fn *ssa.Function, name string, con *Contract) *FnCtx {
 	fc := &FnCtx{eng: e, fn: fn, name: name, sc: sc, con: con, regs: map[ssa.Value]Val{}, hv: map[string]*heapVar{},
 		kindCount: map[string]int{}, strLits: map[string]string{}, params: map[string]Val{}, curFn: fn}
 	fc.sorts = newSorts(sc, e)
+	// datatypes that proved lemmas mention must exist in every query
+	var ks []string
+	for k := range e.lemmaTypes {
+		ks = append(ks, k)
+	}
+	sort.Strings(ks)
+	for _, k := range ks {
+		fc.sorts.SortOf(e.lemmaTypes[k])
+	}
 	return fc
 }
 
@@ -53,6 +64,10 @@ func (e *Engine) verifyFunction(fn *ssa.Function, con *Contract) *FuncResult {
 		fc.run()
 	}()
 	res.Obligations = fc.obs
+	for l := range fc.usedLemmas {
+		res.UsedLemmas = append(res.UsedLemmas, l)
+	}
+	sort.Strings(res.UsedLemmas)
 	res.Notes = fc.notes
 	res.Errors = fc.errs
 	res.OutOfSubset = fc.unsupported
@@ -290,6 +305,23 @@ func (e *Engine) verifyLemma(lm *Lemma) *FuncResult {
 	g := fc.evalBool(env, &Clause{Text: lm.Text, Expr: lm.Expr, Pos: res.Pos})
 	lm.Formula = g
 	lm.Header = strings.Join(fc.sc.header, "\n")
+	// keep binders and body for explicit instantiation (`apply`)
+	if decls, body, ok := splitQuant(g); ok && strings.HasPrefix(g, "(forall ") {
+		lm.Binders = decls
+		lm.Body = stripPattern(body)
+		lm.BinderNames = nil
+		if ce, ok := lm.Expr.(*ast.CallExpr); ok {
+			for _, a := range ce.Args {
+				if c, ok := a.(*ast.CallExpr); ok && len(c.Args) >= 1 {
+					if id, ok := c.Args[len(c.Args)-1].(*ast.Ident); ok && len(lm.BinderNames) < len(decls) {
+						lm.BinderNames = append(lm.BinderNames, id.Name)
+						continue
+					}
+				}
+				break
+			}
+		}
+	}
 	fc.oblige(st, "lemma", g, token.NoPos, lm.Text)
 	res.Obligations = fc.obs
 	res.Errors = fc.errs
